@@ -639,7 +639,11 @@ func (s *syncer) loadBisyncMigrationSeed(cli client.Redis, checkpointName string
 			return nil, err
 		}
 		if best != nil {
-			return checkpoint.NewBisyncNamespaceSeedFromRecord(best)
+			seed, err := checkpoint.NewBisyncNamespaceSeedFromRecord(best)
+			if err != nil {
+				return nil, err
+			}
+			return s.preferNewerRootCheckpoint(cli, checkpointName, ids, seed)
 		}
 	case checkpoint.BisyncModePipeline, checkpoint.BisyncModeParallel:
 		// `pipeline` and `parallel` may need journal replay after the saved frontier snapshot to
@@ -663,13 +667,35 @@ func (s *syncer) loadBisyncMigrationSeed(cli client.Redis, checkpointName string
 		if frontier != nil && frontier.UnitSeq > 0 {
 			// Sync recovery only needs one authoritative start point, so migration
 			// does not rebuild the full per-slot latest set ahead of time.
-			return checkpoint.NewBisyncNamespaceSeedFromFrontier(frontier, 0)
+			seed, err := checkpoint.NewBisyncNamespaceSeedFromFrontier(frontier, 0)
+			if err != nil {
+				return nil, err
+			}
+			return s.preferNewerRootCheckpoint(cli, checkpointName, ids, seed)
 		}
 	default:
 		return nil, fmt.Errorf("unsupported bisync mode %q", currentMode)
 	}
 
 	return nil, fmt.Errorf("no bisync authoritative migration seed found: checkpoint(%s), mode(%s), ids(%v)", checkpointName, currentMode, ids)
+}
+
+// preferNewerRootCheckpoint mirrors bisyncStartPoint : a start in the old mode resumes from the root checkpoint
+// when that is ahead of the mode-specific recovery record (a full sync completed after the last replayed unit),
+// so the namespace of the new mode must not be seeded behind it.
+func (s *syncer) preferNewerRootCheckpoint(cli client.Redis, checkpointName string, ids []string, seed *checkpoint.BisyncNamespaceSeed) (*checkpoint.BisyncNamespaceSeed, error) {
+	root, _, err := checkpoint.GetCheckpoint(cli, checkpointName, ids)
+	if err != nil {
+		return nil, err
+	}
+	// GetCheckpoint leaves the connection in the last database it scanned, the namespace is written in database 0
+	if err := redis.SelectDB(cli, 0); err != nil {
+		return nil, err
+	}
+	if root != nil && root.RunId != "?" && root.Offset > seed.Offset && checkpoint.MatchBisyncRunID(root.RunId, ids) {
+		return checkpoint.NewBisyncNamespaceSeedFromCheckpoint(root, seed.Slot)
+	}
+	return seed, nil
 }
 
 // seedBisyncNamespace writes the minimum recovery state required for a fresh
